@@ -152,6 +152,14 @@ var shareCases = []shareCase{
 	// a nested write changes what it names and nothing else of the same array (fixed: C06-2)
 	{"nested-store-list", "$a = [[1, 2], [3]]; $a[0][0] = 9; $a[1][] = 4; echo show($a);", "[0=>[0=>9,1=>2,],1=>[0=>3,1=>4,],]", "expect"},
 	{"concat-assign-elem", "$a = [3, 1]; $a[0] .= 'z'; echo show($a);", "[0=>3z,1=>1,]", "expect"},
+	// a reference taken to an element of a COPY binds a cell of the copy, not the cell the copy shares with
+	// its source (fixed: C06-7); a reference that exists before the copy keeps writing through both (as in PHP)
+	{"ref-slot-of-copy", "$a = [1, 2, 3]; $b = $a; $r = &$b[0]; $r = 9; $b[0] = 7; $b[1] = 8; echo show($a), ' ', show($b), ' ', show($r);", "[0=>1,1=>2,2=>3,] [0=>7,1=>8,2=>3,] 7", "refleak"},
+	{"ref-param-elem-of-copy", "function c06setr5(&$x) { $x = 5; } $a = [1, 2, 3]; $b = $a; c06setr5($b[0]); echo show($a), ' ', show($b);", "[0=>1,1=>2,2=>3,] [0=>5,1=>2,2=>3,]", "refleak"},
+	{"ref-param-keyelem-of-copy", "function c06setr6(&$x) { $x = 6; } $a = []; $a['k'] = 1; $a['m'] = 2; $b = $a; c06setr6($b['k']); echo show($a), ' ', show($b);", "[k=>1,m=>2,] [k=>6,m=>2,]", "refleak"},
+	{"ref-slot-of-orig", "$a = [1, 2, 3]; $b = $a; $r = &$a[1]; $r = 9; echo show($a), ' ', show($b);", "[0=>1,1=>9,2=>3,] [0=>1,1=>2,2=>3,]", "refleak"},
+	{"ref-arrslot-before-copy", "$a = [[1], 2]; $r = &$a[0]; $b = $a; $b[0][] = 7; echo show($a), ' ', show($b), ' ', show($r);", "[0=>[0=>1,1=>7,],1=>2,] [0=>[0=>1,1=>7,],1=>2,] [0=>1,1=>7,]", ""},
+	{"ref-slot-before-copy", "$a = [1, 2]; $r = &$a[0]; $b = $a; $b[0] = 7; echo show($a), ' ', show($b), ' ', show($r);", "[0=>7,1=>2,] [0=>7,1=>2,] 7", ""},
 }
 
 func (r *runner) runShare(sc shareCase) {
@@ -163,6 +171,9 @@ func (r *runner) runShare(sc shareCase) {
 		pre, what := "noshare", "explicitly shared names no longer share"
 		if sc.Sig != "" {
 			pre, what = sc.Sig, "a write did not do exactly what it names"
+		}
+		if sc.Sig == "refleak" {
+			what = "a reference taken to an element of one copy of an array writes through to the other copy"
 		}
 		c.Violation(pre+":"+sc.Name, fmt.Sprintf("%s: got %q want %q", what, o.String(), sc.Want),
 			&Case{Kind: "share", Src: sc.Src, Mut: sc.Name})
